@@ -24,6 +24,7 @@ PRIVILEGED = ['bypass_author_approval', 'bypass_build_status',
               'bypass_commit_size', 'bypass_incompatible_branch',
               'bypass_jira_check', 'bypass_peer_approval',
               'bypass_leader_approval']
+AUTHORED = ['approve']
 COMMAND_OUTCOME = {'help': 'HelpMessage', 'status': 'StatusReport',
                    'build': 'CommandNotImplemented',
                    'retry': 'CommandNotImplemented',
@@ -165,11 +166,12 @@ def ref_options(comments, author, admins, options, commands, registry):
             if k not in options:
                 # a command name in second position is unknown as an option
                 return 'UnknownCommand', applied, False
-            opt = registry[k]
+            # which options are privileged / author-only is part of the
+            # reference (documentation), not read from the live registry
             privileged = by in admins and by != author
-            if opt.privileged and not privileged:
+            if k in PRIVILEGED and not privileged:
                 return 'NotEnoughCredentials', applied, False
-            if opt.authored and by != author:
+            if k in AUTHORED and by != author:
                 return 'NotAuthor', applied, False
             if k == 'after_pull_request':
                 if v is None:
